@@ -163,7 +163,7 @@ def run(ctx: Ctx) -> int:
     want = {"accepted-forgery", "stored-replaced", "stays-authenticated", "genuine-rejected"}
     got = {k for i, (k, _) in enumerate(cans) if i in bad}
     if not want <= got:
-        raise MachineryError(f"the monitor accepted a canary: {want - got}")
+        ctx.defer_machinery(f"the monitor accepted a canary: {want - got}")
     ctx.extra["canaries_rejected"] = {k: bad.get(i, "accepted (C08 clause, not C06)") for i, (k, _) in enumerate(cans)}
     kinds = {}
     for r in sw:
